@@ -549,7 +549,7 @@ class Oracle:
             refd = {tuple(s[0:2]) for s in stb['s']} if cls == 'f' else {tuple(s[2:4]) for s in stb['s']}
             gone = {tup(x) for x in stb[cls]} - {tup(x) for x in sta[cls]}
             for x in sorted(gone & refd):
-                self.violate({'kind': 'referenced_instance_removed', 'cls': cls},
+                self.violate({'kind': 'referenced_instance_removed', 'cls': cls, 'by': o, 'cause': 'unexplained'},
                              {'mgr': m, 'server': k, 'instance': x})
             if len(sta['s']) != len(stb['s']):
                 self.violate({'kind': 'remove_changed_subscriptions', 'cls': cls}, {'mgr': m, 'server': k})
@@ -578,6 +578,18 @@ class Oracle:
                         # was it in the manager's list?  then the refusal itself is broken
                         self.violate({'kind': 'permanent_subscription_on_owned', 'end': cls, 'cause': cause},
                                      {'mgr': m, 'id': i, 'server': k, 'subscription': (ff, hh)})
+        # ---- clause: referenced filters / destinations cannot be removed — by ANY operation (remove_server,
+        #      remove_all_servers included): no subscription may be left pointing to a missing instance
+        for kk in range(nsrv):
+            stb, sta = before['stores'][kk], after['stores'][kk]
+            fs, ds = {tup(x) for x in sta['f']}, {tup(x) for x in sta['d']}
+            was = subkeys(stb)
+            for (ff, hh) in sorted(subkeys(sta)):
+                for cls, end, have in (('f', ff, fs), ('d', hh, ds)):
+                    if end not in have and ((ff, hh) not in was or end in {tup(x) for x in stb[cls]}):
+                        self.violate({'kind': 'referenced_instance_removed', 'cls': cls, 'by': o,
+                                      'cause': self.explain(m, kk, 'unexplained')},
+                                     {'mgr': m, 'server': kk, 'subscription': (ff, hh), 'missing': end})
         # ---- ops that must not change any server
         if o in ('getOwned', 'getAll') and before['stores'] != after['stores']:
             self.violate({'kind': 'query_changed_server'}, {'op': o})
@@ -1065,6 +1077,10 @@ def compare(run, case, steps, ans):
         run.disagree(case, ans if msteps is None else len(msteps), len(steps), 'history length / driver rejected the case')
         return
     for n, (a, b) in enumerate(zip(msteps, steps)):
+        if a.get('ghost') is False:
+            run.disagree({'case': case, 'step': n}, 'shadow run with erased ghost owners prints something else', None,
+                         'model: a step function reads the ghost owner field')
+            return
         if a['res'] != b['res']:
             run.disagree({'case': case, 'step': n}, a['res'], b['res'], 'result of op %s' % case['ops'][n]['op'])
             return
@@ -1186,6 +1202,8 @@ def run(run):
         'external modification of the server, not an action of the manager whose lists are checked)',
         'at most one live manager object per id at any time (a restart discards the old object first)',
         'CPython re / re.escape behave as modelled on the fragment (checked by the second K stream on every run)',
+        'the ghost owner field of model subscriptions is never read by a step function: every history is also run '
+        'from states with all ghost fields erased and must print the same (bounded evidence, no theorem)',
     ]
     seeds = [(rng.getrandbits(48), MODES[i % len(MODES)], run.thorough) for i in range(n)]
     do_cases(run, seeds)
